@@ -51,6 +51,11 @@ type entry struct {
 	// weight: relative share of the case budget (heavy decoders get less).
 	weight float64
 	call   func(b []byte, aux uint) error
+	// callV: the same call returning the decoded value; set for the entry points
+	// whose result is walked after a successful decode (see walk.go).
+	callV func(b []byte, aux uint) (any, error)
+	// blk: block type + 1 for the block decoders (0 = not a block decoder)
+	blk int
 	// zero: the library's own encoding of the zero value of the target type
 	zero func() []byte
 
@@ -86,10 +91,33 @@ func fn(name string, weight float64, call func(b []byte) error, pools ...string)
 }
 
 func msgEntry(name string, pool string, f func(uint, []byte) (protocol.Message, error)) *entry {
-	return &entry{name: name, pools: []string{pool}, auxN: 32, weight: 2, call: func(b []byte, aux uint) error {
-		_, err := f(aux, b)
-		return err
-	}}
+	return fnV(&entry{name: name, pools: []string{pool}, auxN: 32, weight: 2}, func(b []byte, aux uint) (any, error) {
+		m, err := f(aux, b)
+		if err != nil {
+			return nil, err
+		}
+		return m, nil
+	})
+}
+
+// fnV completes an entry whose decoded value is walked.
+func fnV(e *entry, callV func(b []byte, aux uint) (any, error)) *entry {
+	e.callV = callV
+	e.call = func(b []byte, aux uint) error { _, err := callV(b, aux); return err }
+	return e
+}
+
+// val: entry without aux whose value is walked.
+func val(name string, weight float64, f func(b []byte) (any, error), pools ...string) *entry {
+	return fnV(&entry{name: name, pools: pools, weight: weight}, func(b []byte, _ uint) (any, error) { return f(b) })
+}
+
+// w2 turns (T, error) into (any, error) without producing a typed-nil interface.
+func w2[T any](v T, err error) (any, error) {
+	if err != nil {
+		return nil, err
+	}
+	return v, nil
 }
 
 var blockTypeNames = []string{"byron_ebb", "byron_main", "shelley", "allegra", "mary", "alonzo", "babbage", "conway", "dijkstra"}
@@ -234,24 +262,25 @@ func buildEntries() []*entry {
 	for t, tn := range blockTypeNames {
 		t := uint(t)
 		w := 0.35
-		add(fn("ledger.NewBlockFromCbor/"+tn, w, func(b []byte) error { _, err := ledger.NewBlockFromCbor(t, b); return err }, "block:"+tn, "block:"+tn+":full", "block"))
-		add(fn("ledger.NewBlockFromCbor/"+tn+"/skiphash", w, func(b []byte) error {
-			_, err := ledger.NewBlockFromCbor(t, b, common.VerifyConfig{SkipBodyHashValidation: true})
-			return err
+		add(val("ledger.NewBlockFromCbor/"+tn, w, func(b []byte) (any, error) { return w2(ledger.NewBlockFromCbor(t, b)) }, "block:"+tn, "block:"+tn+":full", "block"))
+		add(val("ledger.NewBlockFromCbor/"+tn+"/skiphash", w, func(b []byte) (any, error) {
+			return w2(ledger.NewBlockFromCbor(t, b, common.VerifyConfig{SkipBodyHashValidation: true}))
 		}, "block:"+tn, "block:"+tn+":full", "block"))
-		add(fn("ledger.NewBlockFromCborWithOffsets/"+tn, w, func(b []byte) error {
-			_, err := ledger.NewBlockFromCborWithOffsets(t, b, common.VerifyConfig{SkipBodyHashValidation: true})
-			return err
+		add(val("ledger.NewBlockFromCborWithOffsets/"+tn, w, func(b []byte) (any, error) {
+			return w2(ledger.NewBlockFromCborWithOffsets(t, b, common.VerifyConfig{SkipBodyHashValidation: true}))
 		}, "block:"+tn, "block"))
-		add(fn("ledger.NewBlockHeaderFromCbor/"+tn, 1, func(b []byte) error { _, err := ledger.NewBlockHeaderFromCbor(t, b); return err }, "header:"+tn, "header"))
+		for _, be := range es[len(es)-3:] {
+			be.blk = int(t) + 1
+		}
+		add(val("ledger.NewBlockHeaderFromCbor/"+tn, 1, func(b []byte) (any, error) { return w2(ledger.NewBlockHeaderFromCbor(t, b)) }, "header:"+tn, "header"))
 	}
 	for t, tn := range txTypeNames {
 		t := uint(t)
-		add(fn("ledger.NewTransactionFromCbor/"+tn, 1, func(b []byte) error { _, err := ledger.NewTransactionFromCbor(t, b); return err }, "tx:"+tn, "tx"))
-		add(fn("ledger.NewTransactionBodyFromCbor/"+tn, 1, func(b []byte) error { _, err := ledger.NewTransactionBodyFromCbor(t, b); return err }, "txbody:"+tn, "txbody"))
+		add(val("ledger.NewTransactionFromCbor/"+tn, 1, func(b []byte) (any, error) { return w2(ledger.NewTransactionFromCbor(t, b)) }, "tx:"+tn, "tx"))
+		add(val("ledger.NewTransactionBodyFromCbor/"+tn, 1, func(b []byte) (any, error) { return w2(ledger.NewTransactionBodyFromCbor(t, b)) }, "txbody:"+tn, "txbody"))
 	}
 	add(fn("ledger.DetermineTransactionType", 0.7, func(b []byte) error { _, err := ledger.DetermineTransactionType(b); return err }, "tx"))
-	add(fn("ledger.NewTransactionOutputFromCbor", 1, func(b []byte) error { _, err := ledger.NewTransactionOutputFromCbor(b); return err }, "txout"))
+	add(val("ledger.NewTransactionOutputFromCbor", 1, func(b []byte) (any, error) { return w2(ledger.NewTransactionOutputFromCbor(b)) }, "txout"))
 	add(fn("ledger.ExtractTransactionOffsets", 0.5, func(b []byte) error { _, err := ledger.ExtractTransactionOffsets(b); return err }, "block", "wrappedblock"))
 	add(fn("common.BlockBodySizeFromCbor", 0.5, func(b []byte) error { _, err := common.BlockBodySizeFromCbor(b); return err }, "block"))
 	add(fn("ledger.NewTxSubmitErrorFromCbor", 1, func(b []byte) error { _, err := ledger.NewTxSubmitErrorFromCbor(b); return err }, "txerror", "any"))
@@ -266,11 +295,41 @@ func buildEntries() []*entry {
 	add(decT[ledger.ApplyTxError]("cbor.Decode[ledger.ApplyTxError]", "txerror"))
 
 	// era-specific public constructors not reached 1:1 through the dispatchers
-	add(fn("byron.NewByronTransactionOutputFromCbor", 1, func(b []byte) error { _, err := byron.NewByronTransactionOutputFromCbor(b); return err }, "txout"))
-	add(fn("shelley.NewShelleyTransactionOutputFromCbor", 1, func(b []byte) error { _, err := shelley.NewShelleyTransactionOutputFromCbor(b); return err }, "txout"))
-	add(fn("mary.NewMaryTransactionOutputFromCbor", 1, func(b []byte) error { _, err := mary.NewMaryTransactionOutputFromCbor(b); return err }, "txout"))
-	add(fn("alonzo.NewAlonzoTransactionOutputFromCbor", 1, func(b []byte) error { _, err := alonzo.NewAlonzoTransactionOutputFromCbor(b); return err }, "txout"))
-	add(fn("babbage.NewBabbageTransactionOutputFromCbor", 1, func(b []byte) error { _, err := babbage.NewBabbageTransactionOutputFromCbor(b); return err }, "txout"))
+	add(val("byron.NewByronTransactionOutputFromCbor", 1, func(b []byte) (any, error) {
+		o, err := byron.NewByronTransactionOutputFromCbor(b)
+		if err != nil || o == nil {
+			return nil, err
+		}
+		return common.TransactionOutput(o), nil
+	}, "txout"))
+	add(val("shelley.NewShelleyTransactionOutputFromCbor", 1, func(b []byte) (any, error) {
+		o, err := shelley.NewShelleyTransactionOutputFromCbor(b)
+		if err != nil || o == nil {
+			return nil, err
+		}
+		return common.TransactionOutput(o), nil
+	}, "txout"))
+	add(val("mary.NewMaryTransactionOutputFromCbor", 1, func(b []byte) (any, error) {
+		o, err := mary.NewMaryTransactionOutputFromCbor(b)
+		if err != nil || o == nil {
+			return nil, err
+		}
+		return common.TransactionOutput(o), nil
+	}, "txout"))
+	add(val("alonzo.NewAlonzoTransactionOutputFromCbor", 1, func(b []byte) (any, error) {
+		o, err := alonzo.NewAlonzoTransactionOutputFromCbor(b)
+		if err != nil || o == nil {
+			return nil, err
+		}
+		return common.TransactionOutput(o), nil
+	}, "txout"))
+	add(val("babbage.NewBabbageTransactionOutputFromCbor", 1, func(b []byte) (any, error) {
+		o, err := babbage.NewBabbageTransactionOutputFromCbor(b)
+		if err != nil || o == nil {
+			return nil, err
+		}
+		return common.TransactionOutput(o), nil
+	}, "txout"))
 	add(decT[dijkstra.DijkstraTransactionOutput]("cbor.Decode[dijkstra.TransactionOutput]", "txout"))
 	add(fn("common.NewLeiosEndorserBlockFromCbor", 1, func(b []byte) error { _, err := common.NewLeiosEndorserBlockFromCbor(b); return err }, "leioseb", "any"))
 
